@@ -136,7 +136,7 @@ def canonical_keyword(k: str, ev: PEvent, wrapper: FuncInfo, wrapper_params: lis
     return top[0] if len(top) == 1 else k
 
 
-def check_forward(rep: Report, prog: Program, wrapper: FuncInfo, pred, wrapper_params: list[str], renames: dict[str, str], label: str, required_kw: list[str] | None = None, paths=None) -> None:
+def check_forward(rep: Report, prog: Program, wrapper: FuncInfo, pred, wrapper_params: list[str], renames: dict[str, str], label: str, required_kw: list[str] | None = None, paths=None, rid: str = "R12.3") -> None:
     rep.analysed(wrapper.qual)
     ps = paths if paths is not None else engine(prog).paths(wrapper)
     found = 0
@@ -155,40 +155,44 @@ def check_forward(rep: Report, prog: Program, wrapper: FuncInfo, pred, wrapper_p
                 seen_sources |= src
                 if k == "func" and v[0] == "lambda":
                     continue  # contexts / decorator wrap the user function in a zero-argument lambda
+                if isinstance(v, tuple) and v and v[0] == "pure" and str(v[1]).startswith("new "):
+                    cands = [q for q, c in prog.classes.items() if c.name == str(v[1])[4:]]
+                    if len(cands) == 1 and engine(prog)._new_record_class(cands[0]) is not None:
+                        continue  # a parameter object: its fields were bound under their own names by the engine
                 if want not in wrapper_params and want != "self" and not (src & set(wrapper_params)):
                     continue  # a local of the wrapper (e.g. the ExecutionContext), not a forwarded parameter
                 if label.startswith("decorator-ctor") and k == "strategy" and v[0] == "call" and str(v[2]).endswith(":decorrelated_jitter"):
                     continue  # documented default when neither strategy nor strategies is given
                 construct = f"{label}|{wrapper.qual.split(':')[1]}|{k}"
-                rep.instance("R12.3", construct, {"wrapper": wrapper.qual, "delegate_keyword": k, "value": show(v)[:80]} if len(rep.samples) < 12 else None)
+                rep.instance(rid, construct, {"wrapper": wrapper.qual, "delegate_keyword": k, "value": show(v)[:80]} if len(rep.samples) < 12 else None)
                 others = (src & set(wrapper_params)) - {want}
                 if want in src or (v[0] == "const" and k not in wrapper_params and want not in wrapper_params):
                     if others and not allowed_mix(k, others):
-                        rep.fail("R12.3", f"{construct}|mixed", f"{wrapper.qual}: delegate keyword `{k}` is built from {sorted(src)} (also from other parameters {sorted(others)})", where=f"{wrapper.module.relpath}:{e.lineno}", function=wrapper.qual)
+                        rep.fail(rid, f"{construct}|mixed", f"{wrapper.qual}: delegate keyword `{k}` is built from {sorted(src)} (also from other parameters {sorted(others)})", where=f"{wrapper.module.relpath}:{e.lineno}", function=wrapper.qual)
                     else:
-                        rep.ok("R12.3")
+                        rep.ok(rid)
                 elif want == "self" and v == ("param", "self"):
-                    rep.ok("R12.3")
+                    rep.ok(rid)
                 else:
-                    rep.fail("R12.3", f"{construct}|crossed", f"{wrapper.qual}: delegate keyword `{k}` receives {show(v)[:80]} instead of `{want}`", where=f"{wrapper.module.relpath}:{e.lineno}", function=wrapper.qual)
+                    rep.fail(rid, f"{construct}|crossed", f"{wrapper.qual}: delegate keyword `{k}` receives {show(v)[:80]} instead of `{want}`", where=f"{wrapper.module.relpath}:{e.lineno}", function=wrapper.qual)
             if required_kw is not None:
                 have = {canonical_keyword(k, e, wrapper, wrapper_params, renames) for k in kw}
                 missing = [k for k in required_kw if k not in kw and renames.get(k, k) not in have]
-                rep.instance("R12.3", f"{label}|{wrapper.qual.split(':')[1]}|required")
+                rep.instance(rid, f"{label}|{wrapper.qual.split(':')[1]}|required")
                 if missing:
-                    rep.fail("R12.3", f"{label}|{wrapper.qual.split(':')[1]}|dropped|{missing[0]}", f"{wrapper.qual}: keyword(s) {missing} are not forwarded to the delegate", where=f"{wrapper.module.relpath}:{e.lineno}", function=wrapper.qual)
+                    rep.fail(rid, f"{label}|{wrapper.qual.split(':')[1]}|dropped|{missing[0]}", f"{wrapper.qual}: keyword(s) {missing} are not forwarded to the delegate", where=f"{wrapper.module.relpath}:{e.lineno}", function=wrapper.qual)
                 else:
-                    rep.ok("R12.3")
+                    rep.ok(rid)
     if found == 0:
         raise AnalysisError(f"{wrapper.qual}: delegate call not found ({label})")
     # nothing dropped: every forwardable parameter of the wrapper is used by some delegate call
     for pn in wrapper_params:
         want_used = pn
-        rep.instance("R12.3", f"{label}|{wrapper.qual.split(':')[1]}|uses|{pn}")
+        rep.instance(rid, f"{label}|{wrapper.qual.split(':')[1]}|uses|{pn}")
         if want_used in seen_sources:
-            rep.ok("R12.3")
+            rep.ok(rid)
         else:
-            rep.fail("R12.3", f"{label}|{wrapper.qual.split(':')[1]}|dropped|{pn}", f"{wrapper.qual}: parameter `{pn}` is accepted but never forwarded to the delegate", where=wrapper.where(), function=wrapper.qual)
+            rep.fail(rid, f"{label}|{wrapper.qual.split(':')[1]}|dropped|{pn}", f"{wrapper.qual}: parameter `{pn}` is accepted but never forwarded to the delegate", where=wrapper.where(), function=wrapper.qual)
 
 
 def allowed_mix(k: str, others: set[str]) -> bool:
@@ -408,6 +412,16 @@ def twins(rep: Report, prog: Program) -> None:
                 rep.instance("R12.1", f"method-missing|{a}.{m}")
                 rep.fail("R12.1", f"method-missing|{a.split(':')[1]}.{m}", f"method `{m}` exists in only one of {a} / {b}", where=f"{ca.module.relpath}:{ca.node.lineno}", function=a)
     for qa, qb in pairs:
+        if qb not in prog.funcs and qa in prog.funcs:
+            # the async module no longer has its own copy: fine if the name there is the sync function itself (shared)
+            mb, nb = qb.split(":")
+            k, pth = prog.lookup_name(nb, None, prog.modules[mb]) if mb in prog.modules and "." not in nb else ("unknown", None)
+            rep.instance("R12.1", f"{qa.split(':')[1]}~shared")
+            if k == "func" and pth.qual == qa:
+                rep.ok("R12.1")
+            else:
+                rep.fail("R12.1", f"{qa.split(':')[1]}|twin-missing", f"twin {qb} of {qa} does not exist and the name is not the shared sync function", where=prog.func(qa).where(), function=qa)
+            continue
         fa, fb = prog.func(qa), prog.func(qb)
         rep.analysed(qa, qb)
         pa = engine(prog).paths(fa, raises=twin_raises, key="twin")
@@ -571,6 +585,9 @@ def run(rep: Report, prog: Program, tier: str) -> None:
     rep.rule("R12.5", "configuration written on a sugar object (RetryPolicy / AsyncRetryPolicy attribute assignment) reaches the wrapped retry component: forwarded iff the component has an attribute of that name (existence, not current value); reads are served by the component")
     sugar_setattr(rep, "R12.5", prog)
     rep.floor("R12.5", 8)
+    rep.rule("R12.6", "@retry always installs the policy: the inner decorator returns its sync wrapper for plain functions and its async wrapper for coroutine functions on every path - never the undecorated function - whatever the configuration")
+    decorator_wraps(rep, "R12.6", prog)
+    rep.floor("R12.6", 3)
     twins(rep, prog)
     call_vs_execute(rep, prog, tier)
     # Policy level: call() and execute() make the same breaker record for the same ending
@@ -645,3 +662,55 @@ def sugar_setattr(rep: Report, rid: str, prog: Program) -> None:
                 rep.ok(rid)
             else:
                 rep.fail(rid, f"{cls}.__getattr__", f"{ga.qual}: attribute reads must be served by the retry component (getattr(self.retry, name)); found {show(r) if r else p.exit}", where=ga.where(), function=ga.qual)
+
+
+def decorator_wraps(rep: Report, rid: str, prog: Program) -> None:
+    """@retry always installs the policy: every path of the inner decorator returns one of its own wrapper functions
+    (whose forwarding to RetryPolicy.call / AsyncRetryPolicy.call is R12.3), never the undecorated function, and the
+    coroutine test alone selects the twin"""
+    dec = prog.func("redress.policy.decorator:retry")
+    inner = dec.nested.get("decorator")
+    if inner is None:
+        raise AnalysisError("decorator closure vanished")
+    rep.analysed(inner.qual)
+    wrappers = {f.qual: f for f in inner.nested.values()}
+    kinds = set()
+    for p in engine(prog).paths(inner):
+        if p.exit[0] != "return":
+            continue
+        v = p.exit[1]
+        rep.instance(rid, f"decorator|returns {show(v)[:50]}")
+        is_async = [pol for a, pol, _ in p.conds if a[0] == "pure" and "iscoroutinefunction" in str(a[1])]
+        target = v[1] if isinstance(v, tuple) and v[0] == "global" else None
+        wf = wrappers.get(target) if target else None
+        problem = None
+        if wf is None:
+            problem = f"returns {show(v)} instead of a wrapper that runs the function under the policy (the decorated function would bypass retries, events and hooks)"
+        elif is_async not in ([True], [False]):
+            problem = "the choice of wrapper does not depend on asyncio.iscoroutinefunction(func) alone"
+        elif wf.is_async != is_async[0]:
+            problem = f"a {'coroutine' if is_async[0] else 'plain'} function gets the {'async' if wf.is_async else 'sync'} wrapper"
+        else:
+            kinds.add(wf.is_async)
+        if problem:
+            rep.fail(rid, f"decorator|{problem[:50]}", f"{inner.qual}: {problem}", where=path_where(prog, inner.qual, p), function=inner.qual, path=p.describe())
+        else:
+            rep.ok(rid)
+    rep.instance(rid, "decorator|both-twins")
+    if kinds == {True, False}:
+        rep.ok(rid)
+    else:
+        rep.fail(rid, "decorator|both-twins", f"{inner.qual}: expected a sync and an async wrapper path; found async={sorted(kinds)}", where=inner.where(), function=inner.qual)
+
+
+def context_forwarding(rep: Report, rid: str, prog: Program) -> None:
+    """per-call overrides bound through `.context(...)` reach call(): the context object is built from the like-named
+    parameters (positional construction is checked against the field order of the context class) and its call()
+    forwards every bound value under the same name"""
+    ends = lambda *s_: (lambda e: any(e.label.endswith(x) for x in s_))  # noqa: E731
+    for cls in ("redress.policy.retry_sync:Retry", "redress.policy.retry_async:AsyncRetry", "redress.policy.policy:Policy", "redress.policy.async_policy:AsyncPolicy"):
+        check_forward(rep, prog, prog.func(f"{cls}.context"), lambda e: e.label.startswith("new ") and "Context" in e.label, CALL_PARAMS, {"policy": "self"}, "context-ctor", required_kw=["policy"] + CALL_PARAMS, rid=rid)
+    C = "redress.policy.context"
+    for cname, target in (("_RetryContext", "Retry.call"), ("_AsyncRetryContext", "AsyncRetry.call"), ("_PolicyContext", "Policy.call"), ("_AsyncPolicyContext", "AsyncPolicy.call")):
+        fi = prog.func(f"{C}:{cname}.call")
+        check_forward(rep, prog, fi, ends(target), CALL_PARAMS, {}, "context->call", required_kw=CALL_PARAMS, rid=rid)
